@@ -5,7 +5,8 @@
    Replayed on the real Proactor / Runtime by harness bin replay_bufpool. *)
 EXTENDS BufferPool, Json
 
-CONSTANTS MaxLen
+CONSTANTS MaxLen,
+          AllowClose     \* FALSE for datagram sockets (no end of data)
 VARIABLE hist
 gvars == <<vars, hist>>
 
@@ -40,7 +41,7 @@ GNext ==
                  \/ Cancel(o) /\ Step(Rec("cancel", o, 0, 0, "ok", NoBuf))
                  \/ KeyDropAfterRelease(o) /\ Step(Rec("keydrop", o, 0, 0, "ok", NoBuf))
                  \/ \E k \in 1..2 : FeedN(o, k) /\ Step(Rec("feed", o, 0, k, "ok", NoBuf))
-                 \/ Len(hist) >= 3 /\ Close(o) /\ Step(Rec("close", o, 0, 0, "ok", NoBuf))
+                 \/ AllowClose /\ Len(hist) >= 3 /\ Close(o) /\ Step(Rec("close", o, 0, 0, "ok", NoBuf))
             \/ \E h \in Hs :
                  \/ HandleDrop(h) /\ Step(Rec("drop", "", h, 0, "ok", hand[h]))
                  \/ HandleDropAfterRelease(h) /\ Step(Rec("drop", "", h, 0, "ok", hand[h]))
